@@ -252,8 +252,8 @@ Open(c) ==
                          lsn, "ses:" \o ToString(nextSes))
 
 \* the transport hands the connection a chunk in which the JSON objects ms end
-Rx(c, ms) ==
-  /\ cst[c] = "open" /\ ms \in Batches
+RxBody(c, ms) ==
+  /\ cst[c] = "open"
   /\ UNCHANGED <<ses, nextSes>>
   /\ IF Kind = "tcp" /\ Has("D3")
      THEN \* DEVIATION D3: bytes from the socket: AttributeError out of _rx_raw, the task is de-scheduled, the
@@ -261,6 +261,8 @@ Rx(c, ms) ==
           Commit("Rx", [c |-> c, ms |-> ms], [S0 EXCEPT !.cst[c] = "stuck"], lsn, "AttributeError")
      ELSE /\ NamesOK(S0, c, ms)
           /\ Commit("Rx", [c |-> c, ms |-> ms], RxSeq(S0, c, ms), lsn, "-")
+
+Rx(c, ms) == ms \in Batches /\ RxBody(c, ms)
 
 \* the peer closes or the socket fails: the receive loop ends and closes the connection
 PeerClose(c, how) ==
